@@ -1,8 +1,8 @@
 \* reference configuration (quick tier, part "chunk"); verif/checks/c17.py generates the per-part variants
 SPECIFICATION Spec
 CONSTANTS
-  MaxN = 40
-  MaxC = 9
+  MaxN = 24
+  MaxC = 7
   MutN = 3
   MutC = 2
   ShortLen = 4
